@@ -52,10 +52,7 @@ def dfs_leaf_objs(t):
 
 def in_known_attr(c, detail=None):
     """C01-a: list root wrapping plain dicts: n0dict._find is entered with a plain dict as self"""
-    if c.get("mode") == "wrap" and isinstance(c.get("tree"), list):
-        if detail is None or "AttributeError" in str(detail):
-            return "C01-a"
-    return None
+    return None  # C01-a was repaired (see known_findings/C01.json)
 
 
 # --------------------------------------------------------------------------- C evaluators
